@@ -71,6 +71,7 @@ type faultSrc struct {
 	eofRuns   []int
 	afterData int // reads after the data ran out
 	transient int // EOF / timeout results handed over so far
+	lastErrAt time.Time
 }
 
 var errTimeout = errors.New("read tcp 127.0.0.1:2101: i/o timeout")
@@ -155,11 +156,30 @@ func (s *faultSrc) noteErr(e error) {
 		}
 	}
 	s.lastErr = e
+	s.lastErrAt = mcrt.Now()
 }
 
 type consumerLog struct {
 	msgs   []handler.Message
 	closed int
+}
+
+// consumeSlowly is consume for a consumer that may take a long (virtual) time
+// before it accepts the next message: each pause is one deviation.
+func consumeSlowly(name string, ch chan handler.Message, log *consumerLog, pause time.Duration) {
+	mcrt.Go(name, func() {
+		for {
+			if mcrt.Choose(2, "consumer-pause") == 1 {
+				mcrt.Sleep(pause)
+			}
+			m, ok := mcrt.Recv2(ch)
+			if !ok {
+				log.closed++
+				return
+			}
+			log.msgs = append(log.msgs, m)
+		}
+	})
 }
 
 // consume runs a consumer thread that reads until its channel is closed.
